@@ -176,14 +176,16 @@ class C12(Prop):
                     ops.append(["A", rng.pick([0, 1, max(tt - 1, 0), tt, tt + 1, 2 * tt])])
                 else:
                     ops.append(["R"])
-            cases.append(dict(mask=mask, timeout=T, ops=ops))
+            # how the driver spells keys (plain / sanitised / non-ASCII / labelled / global label / mixed):
+            # keys are opaque ids in the model, so the spelling must not change any observation
+            cases.append(dict(mask=mask, timeout=T, naming=rng.weighted([(2, 0), (2, 1), (1, 2), (2, 3), (1, 4), (3, 5)]), ops=ops))
         binpath = core.harness_build("hprom", "c12p")
 
         def line(c):
             toks = []
             for o in c["ops"]:
                 toks.append("U%s%d:%d" % (o[1], o[2], o[3]) if o[0] == "U" else ("A%d" % o[1] if o[0] == "A" else "R"))
-            return "%d %s | %s" % (c["mask"], "-" if c["timeout"] is None else c["timeout"], " ".join(toks))
+            return "%d %s %d | %s" % (c["mask"], "-" if c["timeout"] is None else c["timeout"], c.get("naming", 0), " ".join(toks))
         rc, outs, err = core.run_impl(binpath, [line(c) for c in cases], timeout=900)
         if rc != 0 or len(outs) != len(cases):
             raise core.MachineryBroken("c12p driver failed: rc=%s %s" % (rc, err[-1000:]))
@@ -221,6 +223,7 @@ class C12(Prop):
         ctx["coverage"]["prometheus_level_histories"] = len(cases)
         ctx["coverage"]["prometheus_level_renders"] = sum(1 for c in cases for o in c["ops"] if o[0] == "R")
         ctx["coverage"]["prometheus_level_sample"] = shown[0]
+        ctx["coverage"]["prometheus_level_key_spelling"] = {str(m): sum(1 for c in cases if c["naming"] == m) for m in range(6)}
         if bad:
             return [("prom-spec", "through the Prometheus exporter (idle_timeout + mock clock) a series is present/absent or has a value other than the per-metric specification says",
                      dict(prom_case=shown[bad[0]], failing=len(bad)))]
